@@ -15,8 +15,8 @@ Proof.
 Qed.
 
 Lemma exchange_sound ops h s : exec H cf ops = (h, s) ->
-  forall h1 e h2 cr code uri ver t,
-    h = h1 ++ e :: h2 -> e_op e = TokenCode cr code uri ver -> e_out e = OTokens t ->
+  forall h1 e h2 pl f cr code uri ver t,
+    h = h1 ++ e :: h2 -> e_op e = TokenCode pl f cr code uri ver -> e_out e = OTokens t ->
   exists c q,
     code = Some c
     /\ (exists ecb, In ecb h1 /\ e_op ecb = Callback (q_id q) /\ e_out ecb = OCode c)
@@ -34,7 +34,7 @@ Lemma exchange_sound ops h s : exec H cf ops = (h, s) ->
     /\ (forall x, t_jwt t = Some x -> x = q_client q)
     /\ t_scope t = q_scopes q /\ t_nonce t = q_nonce q.
 Proof.
-  intros Hex h1 e h2 cr code uri ver t Heq Hop Hout.
+  intros Hex h1 e h2 pl f cr code uri ver t Heq Hop Hout.
   apply exec_reach in Hex. destruct (reach_split H cf h s Hex h1 e h2 Heq) as [Hr1 Hstep].
   apply reach_inv in Hr1. apply step_trans in Hstep. rewrite Hop, Hout in Hstep.
   apply trans_code_inv in Hstep as [cd [q [c [-> [Hcr [Hfc [Hp [Hu [Hch [Hpub Hiss]]]]]]]]]].
@@ -55,21 +55,21 @@ Proof.
 Qed.
 
 Lemma single_use ops h s : exec H cf ops = (h, s) ->
-  forall h1 e1 h2 e2 h3 c cr1 u1 v1 cr2 u2 v2,
+  forall h1 e1 h2 e2 h3 c pl1 f1 cr1 u1 v1 pl2 f2 cr2 u2 v2,
     h = h1 ++ e1 :: h2 ++ e2 :: h3 ->
-    e_op e1 = TokenCode cr1 (Some c) u1 v1 -> is_tokens (e_out e1) = true ->
-    e_op e2 = TokenCode cr2 (Some c) u2 v2 -> is_tokens (e_out e2) = true -> False.
+    e_op e1 = TokenCode pl1 f1 cr1 (Some c) u1 v1 -> is_tokens (e_out e1) = true ->
+    e_op e2 = TokenCode pl2 f2 cr2 (Some c) u2 v2 -> is_tokens (e_out e2) = true -> False.
 Proof.
-  intros Hex h1 e1 h2 e2 h3 c cr1 u1 v1 cr2 u2 v2 Heq Ho1 Hk1 Ho2 Hk2.
+  intros Hex h1 e1 h2 e2 h3 c pl1 f1 cr1 u1 v1 pl2 f2 cr2 u2 v2 Heq Ho1 Hk1 Ho2 Hk2.
   apply exec_reach in Hex.
   assert (Heq' : h = (h1 ++ e1 :: h2) ++ e2 :: h3) by (rewrite Heq, <- app_assoc; reflexivity).
   destruct (reach_split H cf h s Hex _ e2 h3 Heq') as [Hr Hstep].
   apply reach_inv in Hr. apply step_trans in Hstep. rewrite Ho2 in Hstep.
-  destruct (e_out e2) as [| | | | |t2| | |] eqn:Hout; try discriminate.
+  destruct (e_out e2) as [| | | | |t2| | | |] eqn:Hout; try discriminate.
   apply trans_code_inv in Hstep as [cd [q [cl [[= <-] [Hcr _]]]]].
   destruct (code_req_in _ _ _ Hcr) as [Hcin _].
   assert (Hin1 : In e1 (h1 ++ e1 :: h2)) by (apply in_app_iff; right; now left).
-  destruct (i_used _ _ Hr e1 cr1 c u1 v1 Hin1 Ho1 Hk1) as [_ Hno].
+  destruct (i_used _ _ Hr e1 pl1 f1 cr1 c u1 v1 Hin1 Ho1 Hk1) as [_ Hno].
   exact (Hno _ Hcin).
 Qed.
 
@@ -95,6 +95,22 @@ Proof.
   rewrite (Hnd q eq_refl). discriminate.
 Qed.
 
+(* a refused exchange - wrong input or a storage failure at any point - changes nothing
+   the history can refer to: the code stays valid for its rightful client *)
+Lemma code_refusal_keeps_state r s pl f cr code uri ver s' x :
+  step H cf r s (TokenCode pl f cr code uri ver) = (s', x) -> is_tokens x = false -> s' = s.
+Proof. intros Hs Hk. apply step_trans in Hs. eapply trans_code_refused; eauto. Qed.
+
+(* where the parameters travel (body, query string, both with conflicting values) is irrelevant *)
+Lemma placement_irrelevant r s o :
+  step H cf r s o = step H cf r s
+    (match o with
+     | TokenCode _ f cr code uri ver => TokenCode P_body f cr code uri ver
+     | TokenRefresh _ cr rt sc => TokenRefresh P_body cr rt sc
+     | other => other
+     end).
+Proof. destruct o; try reflexivity; cbn [step]; now rewrite !read_grant_ok, !read_field_ok. Qed.
+
 End T.
 
 (* ---- non-vacuity: a concrete history in which every hypothesis above is met ---- *)
@@ -110,21 +126,35 @@ Definition ex_ops : list (router * op) :=
     (Legacy, Callback 1);                                             (* not done: no code *)
     (Legacy, Login 1 "alice" 7);
     (Provider, Callback 1);
-    (Legacy, TokenCode (Post "spa" "") (Some 1) "https://web/cb" "v1");   (* other client *)
-    (Legacy, TokenCode (Basic "web" "s3cret") (Some 1) "https://web/cb" "");   (* no verifier *)
-    (Legacy, TokenCode (Basic "web" "s3cret") (Some 1) "https://web/cb" "v1");
-    (Provider, TokenCode (Basic "web" "s3cret") (Some 1) "https://web/cb" "v1");   (* replay *)
-    (Provider, TokenRefresh (Basic "web" "s3cret") (Some 2) ["openid"; "phone"]);  (* superset *)
-    (Provider, TokenRefresh (Basic "web" "s3cret") (Some 2) ["openid"; "email"]);
-    (Legacy, TokenRefresh (Basic "web" "s3cret") (Some 2) []);                     (* rotated *)
-    (Legacy, TokenRefresh (Basic "web" "s3cret") (Some 4) ["openid"]) ].
+    (Legacy, TokenCode P_body None (Post "spa" "") (Some 1) "https://web/cb" "v1");   (* other client *)
+    (Legacy, TokenCode P_body None (Basic "web" "s3cret") (Some 1) "https://web/cb" "");   (* no verifier *)
+    (Legacy, TokenCode P_body None (Basic "web" "s3cret") (Some 1) "https://web/cb" "v1");
+    (Provider, TokenCode P_body None (Basic "web" "s3cret") (Some 1) "https://web/cb" "v1");   (* replay *)
+    (Provider, TokenRefresh P_body (Basic "web" "s3cret") (Some 2) ["openid"; "phone"]);  (* superset *)
+    (Provider, TokenRefresh P_body (Basic "web" "s3cret") (Some 2) ["openid"; "email"]);
+    (Legacy, TokenRefresh P_body (Basic "web" "s3cret") (Some 2) []);                     (* rotated *)
+    (Legacy, TokenRefresh P_body (Basic "web" "s3cret") (Some 4) ["openid"]);
+    (* second flow: a storage failure while the redeemed request is removed, then the same code again *)
+    (Provider, Authorize "web" "https://web/cb" ["openid"] "n-2" None);
+    (Provider, Login 8 "bob" 9);
+    (Provider, Callback 8);
+    (Provider, TokenCode P_field_conflict (Some SM_DeleteAuthRequest) (Basic "web" "s3cret") (Some 2) "https://web/cb" "");
+    (Legacy, TokenCode P_query None (Basic "web" "s3cret") (Some 2) "https://web/cb" "");
+    (Legacy, TokenCode P_body None (Basic "web" "s3cret") (Some 2) "https://web/cb" "");
+    (* the refresh grant is withdrawn from the registration; grant_type travels in the query string *)
+    (Legacy, DropRefresh "web");
+    (Legacy, TokenRefresh P_grant_query (Basic "web" "s3cret") (Some 6) []) ].
 
 Example history_nonvacuous :
   map is_tokens (outs ex_H ex_cfg ex_ops)
-  = [false; false; false; false; false; false; true; false; false; true; false; true]
+  = [false; false; false; false; false; false; true; false; false; true; false; true;
+     false; false; false; false; true; false; false; false]
   /\ nth_error (outs ex_H ex_cfg ex_ops) 1 = Some OCbErr
   /\ nth_error (outs ex_H ex_cfg ex_ops) 4 = Some (OErr 4 E_grant)
   /\ nth_error (outs ex_H ex_cfg ex_ops) 5 = Some (OErr 4 E_request)
   /\ nth_error (outs ex_H ex_cfg ex_ops) 8 = Some (OErr 4 E_scope)
-  /\ nth_error (outs ex_H ex_cfg ex_ops) 10 = Some (OErr 4 E_grant).
+  /\ nth_error (outs ex_H ex_cfg ex_ops) 10 = Some (OErr 4 E_grant)
+  /\ nth_error (outs ex_H ex_cfg ex_ops) 15 = Some (OErr 4 E_server)
+  /\ nth_error (outs ex_H ex_cfg ex_ops) 17 = Some (OErr 4 E_grant)
+  /\ nth_error (outs ex_H ex_cfg ex_ops) 19 = Some (OErr 4 E_unauthorized).
 Proof. vm_compute. repeat split. Qed.
